@@ -26,3 +26,6 @@ import MenpoModel.Props.C02Seq
 import MenpoModel.Props.C02Batch
 import MenpoModel.Props.C02Writes
 import MenpoModel.Props.C02Total
+import MenpoModel.Props.C02Src
+import MenpoModel.Props.C02SrcH
+import MenpoModel.Props.C02SrcE
